@@ -22,14 +22,22 @@ pub fn run_campaign(s: &mut Session, target: &str, prop: &str) {
             let _ = std::fs::copy(e.path(), corpus.join(e.file_name()));
         }
     }
-    let runs: u64 = std::env::var("VERIF_FUZZ_RUNS").ok().and_then(|v| v.parse().ok()).unwrap_or(1_500_000);
+    let default_runs = if target == "request" { 48_000 } else { 2_000_000 };
+    let runs: u64 = std::env::var("VERIF_FUZZ_RUNS").ok().and_then(|v| v.parse().ok()).unwrap_or(default_runs);
+    let jobs = 8u64;
+    for e in std::fs::read_dir(&fdir).into_iter().flatten().flatten() {
+        let n = e.file_name().to_string_lossy().to_string();
+        if n.starts_with("fuzz-") && n.ends_with(".log") {
+            let _ = std::fs::remove_file(e.path());
+        }
+    }
     let seed = (s.seed % 4_000_000_000).max(1);
     let t0 = std::time::Instant::now();
     let out = Command::new("cargo")
         .current_dir(&fdir)
         .env("CARGO_NET_OFFLINE", "true")
         .args(["+nightly", "fuzz", "run", target, &format!("corpus/{target}"), "--"])
-        .args([format!("-runs={runs}"), format!("-seed={seed}"), "-max_len=600".into(), "-len_control=0".into(), "-print_final_stats=1".into(), "-timeout=10".into()])
+        .args([format!("-runs={}", runs / jobs), format!("-seed={seed}"), "-max_len=600".into(), "-len_control=0".into(), "-print_final_stats=1".into(), "-timeout=20".into(), format!("-jobs={jobs}"), format!("-workers={jobs}")])
         .output();
     let out = match out {
         Ok(o) => o,
@@ -38,8 +46,20 @@ pub fn run_campaign(s: &mut Session, target: &str, prop: &str) {
             return;
         }
     };
-    let stderr = String::from_utf8_lossy(&out.stderr).to_string();
-    let execs = stderr.lines().find_map(|l| l.strip_prefix("stat::number_of_executed_units:").map(|x| x.trim().parse::<u64>().unwrap_or(0))).unwrap_or(0);
+    let mut stderr = String::from_utf8_lossy(&out.stderr).to_string();
+    // with -jobs the per-job output goes to fuzz-<n>.log in the fuzz directory (the parent echoes it: count once)
+    let has_logs = std::fs::read_dir(&fdir).into_iter().flatten().flatten().any(|e| { let n = e.file_name().to_string_lossy().to_string(); n.starts_with("fuzz-") && n.ends_with(".log") });
+    if has_logs {
+        stderr.clear();
+    }
+    for e in std::fs::read_dir(&fdir).into_iter().flatten().flatten() {
+        let n = e.file_name().to_string_lossy().to_string();
+        if n.starts_with("fuzz-") && n.ends_with(".log") {
+            stderr.push_str(&std::fs::read_to_string(e.path()).unwrap_or_default());
+            let _ = std::fs::remove_file(e.path());
+        }
+    }
+    let execs: u64 = stderr.lines().filter_map(|l| l.strip_prefix("stat::number_of_executed_units:").map(|x| x.trim().parse::<u64>().unwrap_or(0))).sum();
     let cov = stderr.lines().rev().find_map(|l| l.split("cov: ").nth(1).map(|x| x.split_whitespace().next().unwrap_or("").to_string())).unwrap_or_default();
     let corpus_n = std::fs::read_dir(&corpus).map(|d| d.count()).unwrap_or(0);
     let mut crashes = vec![];
